@@ -52,7 +52,7 @@ checks = {
  "C15": ("types+seq+conc", "exploration", "twin/offending pairs for D1-D7; auto traits decided differentially against std over positions x payloads x {Send, Sync}; run-time half: the histories and programs of C02 read as data reached without a live hold",
    "The differential against std widens the auto-trait part beyond a hand-written list (it found two wrong bounds); D1-D7 as for C14.",
    "std's bounds are taken as the reference strictness; raw lock types are the default parking_lot ones."),
- "C16": ("drops", "exploration", "drop-counting payloads + value round-trip oracle over generated construction/destruction plans; quarantine allocator turns double frees into findings; thorough: the same plans under libFuzzer with AddressSanitizer / LeakSanitizer",
+ "C16": ("drops+seq+conc", "exploration", "drop-counting payloads + value round-trip oracle over generated construction/destruction plans; quarantine allocator turns double frees into findings; thorough: the same plans under libFuzzer with AddressSanitizer / LeakSanitizer",
    "Drop-exactly-once through the boxed collection's raw-pointer ownership is invisible to value assertions; generated plans cover every ctor/dtor path x container x leaf.",
    "Drop table per scenario; frees are quarantined during a scenario so a double free is recorded instead of corrupting the heap."),
  "C17": ("seq+conc", "exploration", "model-based PBT: non-acquiring operations under every hold pattern incl. the caller's own guard / closure; no-wait + owner-table-unchanged + no-foreign-release oracle",
@@ -70,8 +70,8 @@ m = {
    "add_only": True,
  },
  "engines": [
-   {"name": "seq", "path": "harness/src/{interp,engine,gen,world,exec,vlock}.rs", "serves_properties": ["C02","C03","C04","C05","C06","C07","C08","C09","C10","C11","C12","C13","C14","C15","C17"], "kind_free_text": seq},
-   {"name": "conc", "path": "harness/src/{exec,engine,gen}.rs", "serves_properties": ["C01","C02","C03","C04","C05","C08","C09","C10","C11","C14","C15","C17"], "kind_free_text": conc},
+   {"name": "seq", "path": "harness/src/{interp,engine,gen,world,exec,vlock}.rs", "serves_properties": ["C02","C03","C04","C05","C06","C07","C08","C09","C10","C11","C12","C13","C14","C15","C16","C17"], "kind_free_text": seq},
+   {"name": "conc", "path": "harness/src/{exec,engine,gen}.rs", "serves_properties": ["C01","C02","C03","C04","C05","C08","C09","C10","C11","C14","C15","C16","C17"], "kind_free_text": conc},
    {"name": "types", "path": "harness/src/{tyeng,surface}.rs", "serves_properties": ["C01","C02","C03","C04","C05","C06","C07","C08","C09","C10","C13","C14","C15"], "kind_free_text": types + "; part of the families is generated from the public API of the tree under test (cargo rustdoc JSON): methods of hold types, constructors, key-less accessors"},
    {"name": "fuzz", "path": "fuzz/fuzz/fuzz_targets/{fuzz_seq,fuzz_conc,fuzz_eval}.rs, tools/fuzz.sh", "serves_properties": ["C01","C02","C03","C04","C05","C06","C07","C08","C09","C10","C11","C12","C13","C16","C17"], "kind_free_text": "libFuzzer (cargo-fuzz, ASan + LSan) over the same byte decoders, evaluators and oracles; thorough tier only, amplification; for C16 a reproduced sanitizer report is a violation (replay = the saved input)"},
    {"name": "drops", "path": "harness/src/{drops,quarantine}.rs", "serves_properties": ["C16"], "kind_free_text": "typed construction/destruction scenarios with drop-counting payloads"},
